@@ -30,6 +30,10 @@ def piece_bytes(x, rng):
     C = hr.CONTENTS
     if x == "hello":
         return cb.frame({"Hello": {"version": 1}}), False
+    if x == "hello_other":
+        return cb.frame({"Hello": {"version": rng.choice([0, 2, 255, 0xFFFFFFFF])}}), False
+    if x == "put_empty_badhash":
+        return cb.frame({"Put": {"path": "f", "expected": H("c1"), "len": 0, "hash": H("c3")}}), False
     if x == "list":
         return cb.frame("List"), False
     if x == "get":
@@ -277,6 +281,14 @@ def run_case(job):
     flat = lambda r: [x if isinstance(x, str) else ":".join(map(str, x)) for x in r]
     replies, full_want = flat(replies), flat(full_want)
     coarse = lambda r: ["Error" if x.startswith("Error:") else x for x in r]
+    # what a hub answers to a Hello naming a version other than its own - its own version, or an error - is its business; C12
+    # binds what comes AFTER: the stream stays in step either way
+    rc_, wc_ = coarse(replies), coarse(full_want)
+    for idx, piece in enumerate(case["pieces"]):
+        if piece == "hello_other" and idx < len(wc_):
+            wc_[idx] = "HelloOrError"
+            if idx < len(rc_) and rc_[idx] in ("Hello", "Error"):
+                rc_[idx] = "HelloOrError"
     # a server that ENDS the session (error exit, nothing changed) at a Put it cannot stage has still handled its input totally:
     # C12 binds what follows an error REPLY.  Such a run differs from the model (reported as non-conformance), it is no alarm.
     in_step_expected = True
@@ -288,7 +300,7 @@ def run_case(job):
     rec = {"kind": kind, "pro": case["pro"], "pieces": case["pieces"], "exit": code if not signaled else -1, "signaled": signaled, "timed_out": code == 124,
            "replies": replies, "f": f, "conf": conf, "tree_unchanged": (f == "c1" and conf == "none" and not other),
            "valid_request_seen": valid_seen, "big_reservation": big,
-           "want_replies": full_want, "replies_c": coarse(replies), "want_replies_c": coarse(full_want), "want_exit": case["exit"], "want_f": case["f"], "want_conf": case["conf"],
+           "want_replies": full_want, "replies_c": rc_, "want_replies_c": wc_, "want_exit": case["exit"], "want_f": case["f"], "want_conf": case["conf"],
            "in_step_expected": in_step_expected, "nbytes": len(data), "stderr": p.stderr.decode("utf8", "replace")[-200:] if signaled else ""}
     return rec
 
